@@ -202,10 +202,12 @@ func (s *sequenceAllocator) nextSequence(ctx context.Context) (sequence uint64, 
 func (s *sequenceAllocator) _releaseCurrentBatch(ctx context.Context) (numReleased uint64, err error) {
 	if s.max > s.last {
 		numReleased, err = s.releaseSequenceRange(ctx, s.last+1, s.max)
+		// The batch is abandoned even if the release could not be persisted (callers fall back to skipped
+		// sequence handling): it must not be handed out from afterwards.
+		s.last = s.max
 		if err != nil {
 			return 0, err
 		}
-		s.last = s.max
 	}
 	return numReleased, nil
 }
